@@ -37,9 +37,20 @@ func NewNTLMAuth (database database.Database) (*NTLMAuth) {
         }
 }
 
-func (h *NTLMAuth) Authenticate(message *auth.NtlmRequest) (*auth.NtlmResponse, error) {
-	r := &auth.NtlmResponse{}
+func (h *NTLMAuth) Authenticate(message *auth.NtlmRequest) (r *auth.NtlmResponse, err error) {
+	r = &auth.NtlmResponse{}
 	r.Authenticated = false
+
+	// the go-ntlm parsers panic on some malformed messages (e.g. offsets
+	// pointing outside the message); that must fail this request only and
+	// not take the authentication service down
+	defer func() {
+		if rec := recover(); rec != nil {
+			h.removeContext(message.Session)
+			r = &auth.NtlmResponse{}
+			err = fmt.Errorf("Failed to parse NTLM message: %v", rec)
+		}
+	}()
 
 	if message.Session == "" {
 		return r, errors.New("Invalid (empty) session specified")
@@ -50,7 +61,7 @@ func (h *NTLMAuth) Authenticate(message *auth.NtlmRequest) (*auth.NtlmResponse, 
 	}
 
 	c := h.getContext(message.Session)
-	err := c.Authenticate(message.NtlmMessage, r)
+	err = c.Authenticate(message.NtlmMessage, r)
 
 	if err != nil || r.Authenticated {
 		h.removeContext(message.Session)
